@@ -495,10 +495,10 @@ def _first(vals):
     return None, None
 
 
-def oracle(ctx, case, tables, status, world, picks, collect=None):
+def oracle(ctx, case, tables, status, world, picks, collect=None, inp=None):
     from harness.adapters import propagate as P
     tb = tables
-    inp = {"case": case}
+    inp = inp or {"case": case}
     methods = case["methods"]
     rep_p, non_p = tb["repPrefix"], tb["nonRepPrefix"]
     types = {r["site_type"]: r for r in case["types"]["rows"]} if case.get("types") else None
@@ -932,6 +932,22 @@ def run(ctx):
                   "duplicate-free sample the model takes as input is no longer what the code draws" % extra["sampleCall"])
     micro_correspondence(ctx, tables)
 
+    # ---- run histories through initialize_infrastructure / initialize_emissions on one folder
+    hist_lines = []
+    for seq, whats in history_sequences(ctx, tables, extra, ok_grid, ctx.pick(10, 60)):
+        check_history(ctx, seq, whats, tables, extra, hist_lines)
+    if hist_lines:
+        flat, spans_h = [], []
+        for (_, ls, _, _) in hist_lines:
+            spans_h.append((len(flat), len(ls)))
+            flat += ls
+        rep_h = core.LeanDriver("drv_propagate").run(flat)
+        for (case, ls, il, inp), (st_, n_) in zip(hist_lines, spans_h):
+            ml = rep_h[st_ + n_ - 1]
+            ctx.traces += 1
+            if ml != il:
+                ctx.disagree("propagate-history", inp, ml[:2000], il[:2000])
+
     n_cases = ctx.pick(720, 8000)
     cases = degenerate_cases(ctx.rng, tables, ok_grid, ctx.pick(1, 8))
     ctx.count("degenerate_family", len(cases))
@@ -1001,6 +1017,162 @@ def run(ctx):
     ctx.extra["level_subsets_hit"] = len([k for k in collect if k[0] not in ("placeholder", "named")])
     ctx.assumptions.append("production rates on the grids 45m/2^13 (named equipment) and 9m/2^15 (numeric equipment, group count chosen so that the placeholder split is exact), survey time/cost multiples of 1.5 (site) "
                            "or 0.25 (group): every division and sum of the code is exact in doubles")
+
+
+# ----------------------------------------------------------------------------------------------
+# run history: the property must hold for the run the user asked for, whatever was run in the
+# same input / generator folder before
+# ----------------------------------------------------------------------------------------------
+def _quiet_ok(case, tables, extra):
+    """the case builds directly and satisfies every clause (a clean base / variant for a history)"""
+    from harness.adapters import propagate as P
+    status, world, sample = P.run_impl(case, extra)
+    if status != "ok" or sample is None:
+        return False
+    ids = [str(r["site_ID"]) for r in case["sites"]["rows"]]
+    if len(set(ids)) != len(ids):
+        return False
+    scratch = core.Ctx("C15", "quick", 0)
+    oracle(scratch, case, tables, status, world, sample)
+    return not scratch.violations
+
+
+def variant(case, rng, tables, kind=None):
+    """a copy of the case in which ONE input the C15 clauses depend on differs; returns (case2, what)"""
+    import copy
+    tb = tables
+    c = copy.deepcopy(case)
+    g = Gen(rng, tables, None)
+    g.frac_durations = 0.0
+    numeric = case["mode"] == "numeric"
+    n_rows = len(c["sites"]["rows"])
+    plain_unscaled = [k for k in tb["globalPlain"] if not k.endswith(tb["srcEpr"])]
+    meth_suffix = {}
+    for me in c["methods"]:
+        for sfx in list(tb["globalMeth"]) + [tb["siteDeploy"]]:
+            meth_suffix[me + sfx] = sfx
+
+    def new_cell(col, level, old, source_row=False):
+        for _ in range(20):
+            if col in meth_suffix:
+                v = g.meth_value(meth_suffix[col], level)
+            elif source_row:
+                v = g.plain_value(tb["repPrefix"] + col, numeric)
+            else:
+                v = g.plain_value(col, numeric)
+            if v != old:
+                return v
+        return None
+
+    def change_table(key, level, source_row=False):
+        t = c.get(key)
+        if not t:
+            return None
+        if source_row:
+            cols = [x for x in t["cols"] if x in (tb["srcErs"], tb["srcDur"], tb["srcMulti"], tb["srcRd"], tb["srcRc"])
+                    or x in meth_suffix]
+        else:
+            cols = [x for x in t["cols"] if x in plain_unscaled or (x in meth_suffix and (
+                not numeric or meth_suffix[x] not in (tb["eqTimeKey"], tb["eqCostKey"])))]
+        if not cols:
+            return None
+        col = rng.choice(cols)
+        row = rng.choice(t["rows"])
+        v = new_cell(col, level, row.get(col), source_row)
+        if v is None:
+            return None
+        row[col] = v
+        return "%s-cell:%s" % (level, meth_suffix.get(col, col))
+
+    kinds = ["site_samples:up", "site_samples:down", "site_samples:None", "site_samples:n", "sites", "site_type",
+             "equipment", "sources", "method-param", "global-param"]
+    kind = kind or rng.choice(kinds)
+    cur = c["n_sites"]
+    if kind.startswith("site_samples"):
+        if kind.endswith("up"):
+            opts = [n for n in range(1, n_rows + 1) if cur is not None and n > cur] + ([None] if cur is not None and cur < n_rows else [])
+        elif kind.endswith("down"):
+            opts = [n for n in range(1, n_rows) if n < (n_rows if cur is None else cur)]
+        elif kind.endswith("None"):
+            opts = [None] if cur is not None and cur != n_rows else []
+        else:
+            opts = [n for n in range(1, n_rows + 1) if n != (n_rows if cur is None else cur)]
+        if not opts:
+            return None, None
+        c["n_sites"] = rng.choice(opts)
+        return c, kind
+    if kind in ("sites", "site_type", "equipment", "sources"):
+        what = change_table({"sites": "sites", "site_type": "types", "equipment": "equipment", "sources": "sources"}[kind],
+                            kind, source_row=(kind == "sources"))
+        return (c, what) if what else (None, None)
+    if kind == "method-param" and c["methods"]:
+        me = rng.choice(c["methods"])
+        sfx = rng.choice([x for x in tb["globalMeth"] if x not in (tb["monthsKey"], tb["yearsKey"])
+                          and (not numeric or x not in (tb["eqTimeKey"], tb["eqCostKey"]))])
+        v = g.meth_value(sfx, "global")
+        if v == c["global_meth"][me].get(sfx):
+            return None, None
+        c["global_meth"][me][sfx] = v
+        return c, "method-param:" + sfx
+    if kind == "global-param":
+        key = rng.choice([k for k in plain_unscaled if not k.endswith(tb["srcRd"]) and not k.endswith(tb["srcRc"])
+                          and not k.endswith(tb["srcErs"])])
+        v = g.plain_value(key, numeric)
+        if v == c["global"].get(key):
+            return None, None
+        c["global"][key] = v
+        return c, "global-param:" + key
+    return None, None
+
+
+def history_sequences(ctx, tables, extra, ok_grid, n):
+    """n run histories [A, B] or [A, B, A'] on one folder; consecutive runs differ in one input"""
+    seqs = []
+    kinds = ["site_samples:up", "site_samples:down", "site_samples:None", "sites", "site_type", "equipment",
+             "sources", "method-param", "global-param", "site_samples:n"]
+    tries = 0
+    while len(seqs) < n and tries < 40 * n:
+        tries += 1
+        base = gen_case(ctx.rng, tables, ok_grid, force={"mode": ctx.rng.choice(["named", "named", "numeric"])})
+        if len(base["sites"]["rows"]) < 3 or not base["methods"] or not _quiet_ok(base, tables, extra):
+            continue
+        kind = kinds[len(seqs) % len(kinds)]
+        second, what = variant(base, ctx.rng, tables, kind)
+        if second is None or not _quiet_ok(second, tables, extra):
+            continue
+        seq, whats = [base, second], [what]
+        if ctx.rng.random() < 0.4:
+            third, what3 = variant(second, ctx.rng, tables)
+            if third is not None and _quiet_ok(third, tables, extra):
+                seq.append(third)
+                whats.append(what3)
+        seqs.append((seq, whats))
+    return seqs
+
+
+def check_history(ctx, seq, whats, tables, extra, lines_out):
+    """runs one history through the real set-up path and judges EVERY run's world against that run's own
+    inputs with all clauses of the oracle; returns the (case, vt, dump) of each run for the model comparison"""
+    from harness.adapters import propagate as P
+    res = P.run_history(seq, extra)
+    for k, (case, (status, world, reused)) in enumerate(zip(seq, res)):
+        what = "first-run" if k == 0 else whats[k - 1]
+        ctx.evaluations += 1
+        ctx.count("history:" + what.split(":")[0] + (":" + what.split(":")[1] if what.startswith("site_samples") else ""))
+        if status == "infra":
+            raise core.InfraError("CSV round trip: " + world)
+        inp = {"history": seq[: k + 1], "differs": whats[:k], "run": k, "case": case,
+               "reused_generated_world": reused}
+        if status != "ok":
+            ctx.violate("C15:history:run-fails", "run %d of a history over one input folder fails (%s) although the same "
+                        "input builds directly" % (k, world), inp)
+            continue
+        row_of = {str(r["site_ID"]): i for i, r in enumerate(case["sites"]["rows"])}
+        picks = [row_of.get(s["sid"], -1) for s in world]
+        oracle(ctx, case, tables, "ok", world, picks, inp=inp)
+        if all(p >= 0 for p in picks):
+            vt = P.ValTable()
+            lines_out.append((case, P.model_lines(case, tables, vt, picks), P.dump_world(world, vt, case, tables), inp))
 
 
 def micro_correspondence(ctx, tables):
@@ -1077,6 +1249,25 @@ def replay(ctx, data):
         tables, extra = levels.extract()
     except Exception:
         tables, extra = levels.last_good()
+    if "history" in inp:
+        # a run history over one input folder, through initialize_infrastructure / initialize_emissions
+        seq = inp["history"]
+        res = P.run_history(seq, extra)
+        for k, (case, (status, world, reused)) in enumerate(zip(seq, res)):
+            print("run %d: site_samples=%r -> %s, generated world reused from disk: %s%s" % (
+                k, case["n_sites"], status if status != "ok" else "%d sites %s" % (len(world), [s["sid"] for s in world]),
+                reused, "" if k == 0 else "   (differs from run %d in %s)" % (k - 1, (inp.get("differs") or ["?"] * k)[k - 1])))
+            if status != "ok":
+                ctx.violate("C15:history:run-fails", "run %d fails: %s" % (k, world), {"case": case})
+                continue
+            row_of = {str(r["site_ID"]): i for i, r in enumerate(case["sites"]["rows"])}
+            oracle(ctx, case, tables, "ok", world, [row_of.get(s["sid"], -1) for s in world])
+        seen = {}
+        for v in ctx.violations:
+            seen.setdefault(v["signature"], []).append(v["what"])
+        for sig, whats in seen.items():
+            print("oracle:", sig, "-", whats[0], ("(+%d more)" % (len(whats) - 1)) if len(whats) > 1 else "")
+        return 1 if ctx.violations else 0
     case = inp["case"]
     # the failing input may need a history: two other worlds are built first in this process, the case is
     # judged, two more are built, and the case must then give the same world again
